@@ -100,6 +100,7 @@ func (c *Ctx) checkGuardedBy(fns []*ssa.Function, table []guardedField, keyPrefi
 var _ = types.Typ
 
 func c06Gen(c *Ctx) {
+	c06CollectPrivate(c)
 	c06MutationSerial(c)
 	c06SlotOwnership(c)
 	c06AtomicInvalids(c)
@@ -401,5 +402,22 @@ func c06AtomicInvalids(c *Ctx) {
 	c.R.SetFloor(total)
 	if total < 20 {
 		c.R.Fail("atomic-invalids examined only %d accesses", total)
+	}
+}
+
+// c06CollectPrivate: collectFields is called concurrently by the goroutines of a list's elements with the same parsed
+// selection set; what it builds must not share mutable storage with the document.
+func c06CollectPrivate(c *Ctx) {
+	c.R.Rule("collect-private", "in package graphql, CollectedField.Selections is only ever assigned append(<itself or nil>, ...): the merged selection slice never aliases the parsed document's slice, whose spare capacity concurrent element goroutines would otherwise overwrite", 3)
+	for _, fn := range c.moduleFuncs(func(p string) bool { return p == pkgGraphql }) {
+		for _, b := range fn.Blocks {
+			for _, in := range b.Instrs {
+				if st, ok := in.(*ssa.Store); ok {
+					if ok2, key, why := selectionsStore(c, fn, st); ok2 {
+						c.R.Check(why == "", key, c.ipos(st), "extended from itself", why+" — list elements collecting the same selection set on different goroutines then race on (and corrupt) each other's field lists")
+					}
+				}
+			}
+		}
 	}
 }
